@@ -22,6 +22,7 @@ KINDS = {
     "clang": ["clang", "-O2", "-DNDEBUG"],
     "fail": ["gcc", "-O1", "-g", "-fsanitize=address,undefined", "-fno-sanitize-recover=all", "-DVERIF_FAILINJECT", "-DEDN_C_VERIF"],
     "tsan": ["gcc", "-O1", "-g", "-fsanitize=thread"],
+    "msan": ["clang", "-O1", "-g", "-fsanitize=memory", "-fno-omit-frame-pointer"],
 }
 
 
